@@ -23,6 +23,8 @@ Normal form of the generated code (one Gallina definition per C++ function, one 
     first, then one unit of fuel is taken per iteration; no fuel left = the out-of-fuel outcome.  Loops and calls
     inside a loop body get the function's entry fuel `fuel0`.
   * a self-recursive function is a Fixpoint on fuel: one unit per call, checked on entry.
+  * a loop whose body contains `return` yields PtrCtl.ctl: `Ret r` (the function returned r) | `Norm carried`.
+Subset, semantics choices, trusted base: comp/ptrgen/NOTES.md.
 Anything outside the subset raises Unsupported (message names the AST node and source line); nothing is guessed."""
 import os, re, sys
 
@@ -384,7 +386,13 @@ class Part:
       fields                                  hook field -> dict(rd=, wr=, ty=ir type)    rd : state -> ptr -> pres T
       members                                 data member of *this -> dict(rd=, wr=, ty=) rd : state -> T (cannot fail)
       functions                               [(C++ member name, Gallina name)] in translation order
-      idioms                                  [callable(tr, node) -> X or None]: library-specific expression shapes"""
+      idioms, lvalue_idioms                   [callable(tr, node) -> X / lvalue or None]: library-specific expression shapes
+      optional: type_rx [(regex, ir type)], gallina {ir type: Gallina type}, ptr_fields (p->f without a hook accessor),
+      arrays / index_types / linear (pointers to freshly allocated arrays, represented by the array VALUE; linear use is
+      checked), binops / casts / incdec / lit_fmt / zero / enum_consts (typed operator tables), classes (nested classes:
+      their data members are implicit in/out parameters, `outer` = the member pointing to the container), inline
+      (accessors `return e;` substituted at the call site), sites (failure outcomes carry a line: the generated code is
+      parametric in `ln : site ordinal -> line`, `src_lines` = the lines of the current source)"""
 
     def __init__(self, cfg, repo=None):
         self.cfg, self.repo = cfg, repo or REPO
